@@ -116,6 +116,7 @@ func loweredBytes(v ssa.Value) bool {
 
 func c10(c *Ctx) {
 	defer c.recursionDepthPaired("R10.6")
+	defer c.fixedDigitsUnconstrained("R10.7")
 	P, R := c.P, c.R
 	R.Explain("R10.1", "case folding (flow): in imap/command every string comparison (==, !=, switch case) against a constant that contains a letter has a lower-case constant and a dynamic side all of whose producers are lower-casing operations (strings.ToLower, rfcparser.String.ToLower, bytes collected through ByteToLower), or uses strings.EqualFold; every command-registry lookup key is lowered; the case-sensitive Parser.ConsumeBytes is never called with a letter; byte comparisons against a letter constant compare a ByteToLower result.")
 	R.Explain("R10.3", "T-EXHAUST: every type implementing command.Builder is registered in Parser.commands or UIDCommandParser.commands (or dispatched explicitly), registry keys are lower-case, and every command.Payload type has a case in the session dispatch (handleCommand / handleWithMailbox / handleUID / serve / command reader).")
@@ -436,4 +437,137 @@ func c10uid(c *Ctx) {
 		R.Check(cases[k], "R10.3", "uid-dispatch|"+k, P.Pos(hu.Pos()), "registered UID command "+k+" has a dispatch case", "the UID command table produces "+k+" but session.handleUID has no case for it (panic 'bad command')")
 	}
 	R.Min("R10.3", "UID sub-commands", len(cases), 5)
+}
+
+// fixedDigitsUnconstrained (R10.7): the nDIGIT productions of RFC 3501's date-time grammar accept every digit string.
+func (c *Ctx) fixedDigitsUnconstrained(rule string) {
+	P, R := c.P, c.R
+	R.Explain(rule, "nDIGIT productions carry no side condition: RFC 3501 writes zone = (\"+\"/\"-\") 4DIGIT, time = 2DIGIT \":\" 2DIGIT \":\" 2DIGIT, date-year = 4DIGIT, date-day-fixed = (SP DIGIT) / 2DIGIT - every digit string of the right width is syntactically valid.  In imap/command no branch whose condition depends on the value returned by Parser.ParseNumberN (directly or through a parse function that returns it) leads to an error return: the command parser never rejects a date or date-time for the value of its numeric fields (normalisation is time.Date's).  Which range would be right is not judged - any value-dependent rejection is reported.")
+	numN := c.fnOpt("rfcparser.(*Parser).ParseNumberN")
+	if numN == nil {
+		R.Fail(rule, "anchor|rfcparser.(*Parser).ParseNumberN", "-", "anchor function ParseNumberN not found")
+		return
+	}
+	funcs := c.funcsInPkg("imap/command")
+	tainted := map[*ssa.Function]bool{numN: true}
+	isErr := func(t types.Type) bool { return t.String() == "error" }
+	var dep func(v ssa.Value, seen map[ssa.Value]bool) bool
+	dep = func(v ssa.Value, seen map[ssa.Value]bool) bool {
+		if v == nil || seen[v] {
+			return false
+		}
+		seen[v] = true
+		switch t := v.(type) {
+		case *ssa.Call:
+			if sc := t.Call.StaticCallee(); sc != nil && tainted[sc] && !isErr(t.Type()) {
+				if _, isTuple := t.Type().(*types.Tuple); !isTuple {
+					return true
+				}
+			}
+			return false
+		case *ssa.Extract:
+			if call, ok := t.Tuple.(*ssa.Call); ok {
+				if sc := call.Call.StaticCallee(); sc != nil && tainted[sc] && !isErr(t.Type()) {
+					return true
+				}
+			}
+			return false
+		case *ssa.BinOp:
+			return dep(t.X, seen) || dep(t.Y, seen)
+		case *ssa.UnOp:
+			if t.Op == token.MUL {
+				if a, ok := t.X.(*ssa.Alloc); ok {
+					for _, s := range engine.StoresTo(a) {
+						if dep(s.Val, seen) {
+							return true
+						}
+					}
+				}
+				return false
+			}
+			return dep(t.X, seen)
+		case *ssa.Convert:
+			return dep(t.X, seen)
+		case *ssa.ChangeType:
+			return dep(t.X, seen)
+		case *ssa.Phi:
+			for _, e := range t.Edges {
+				if dep(e, seen) {
+					return true
+				}
+			}
+		}
+		return false
+	}
+	// functions of imap/command that hand the number on
+	for changed := true; changed; {
+		changed = false
+		for _, f := range funcs {
+			if tainted[f] {
+				continue
+			}
+			for _, ret := range engine.Returns(f) {
+				for _, r := range ret.Results {
+					if !isErr(r.Type()) && dep(r, map[ssa.Value]bool{}) {
+						tainted[f] = true
+						changed = true
+					}
+				}
+			}
+		}
+	}
+	uses, judged := 0, 0
+	for _, f := range funcs {
+		usesHere := false
+		for _, cs := range engine.Calls(f) {
+			if sc := cs.Common().StaticCallee(); sc != nil && tainted[sc] {
+				usesHere = true
+				uses++
+			}
+		}
+		if !usesHere {
+			continue
+		}
+		judged++
+		bad := ""
+		for _, b := range f.Blocks {
+			ifi := engine.IfOf(b)
+			if ifi == nil || !dep(ifi.Cond, map[ssa.Value]bool{}) {
+				continue
+			}
+			for _, ret := range engine.Returns(f) {
+				lr := engine.LastResult(ret)
+				if lr == nil || !isErr(lr.Type()) || engine.IsNilConst(lr) {
+					continue
+				}
+				// control dependence: the error return is inevitable from one successor but not from the branch itself
+				inev := func(s *ssa.BasicBlock) bool {
+					seen := map[*ssa.BasicBlock]bool{}
+					ok := true
+					var walk func(x *ssa.BasicBlock)
+					walk = func(x *ssa.BasicBlock) {
+						if seen[x] || !ok || x == ret.Block() {
+							return
+						}
+						seen[x] = true
+						if len(x.Succs) == 0 {
+							ok = false
+							return
+						}
+						for _, y := range x.Succs {
+							walk(y)
+						}
+					}
+					walk(s)
+					return ok
+				}
+				if len(b.Succs) == 2 && inev(b.Succs[0]) != inev(b.Succs[1]) {
+					bad = P.Pos(ifi.Cond.Pos()) + " -> error return " + P.Pos(ret.Pos())
+				}
+			}
+		}
+		R.Check(bad == "", rule, c.name(f)+"|no value-dependent rejection of nDIGIT fields", P.Pos(f.Pos()), "numeric fields are not range-checked by the parser", "a branch on the value of an nDIGIT field leads to an error ("+bad+"): a syntactically valid date/date-time is refused")
+	}
+	R.Stats["R10.7 nDIGIT field reads"] = uses
+	R.Min(rule, "functions that read nDIGIT fields", judged, 5)
 }
